@@ -391,14 +391,20 @@ where
         }
     }
     pub fn truncate(&mut self, len: usize) {
+        if len >= self.len() {
+            return;
+        }
         for x in self.iter_mut().skip(len) {
             unsafe { ptr::drop_in_place(x as *mut T) };
         }
         if len == 0 {
             L::zero().emplace(&mut self.data).unwrap();
         } else {
+            // Mark the item number `len - 1` as the last one.
             let mut iter = self.bytes_mut_iter();
-            let _ = iter.nth(len - 1);
+            if len > 1 {
+                let _ = iter.nth(len - 2);
+            }
             L::max_value().emplace(iter.data.unwrap()).unwrap();
         }
     }
